@@ -6,5 +6,8 @@ CONSTANTS
   SampleDen = 3
   SampleRes = 0
   Depth2On = TRUE
+  PrimeMax = 40000
+  BlueMax = 1100
+  BothKinds = TRUE
 INVARIANT TreeInv
 CHECK_DEADLOCK FALSE
